@@ -800,6 +800,26 @@ func (fv *FV) havocWrites(e *Env, ws *writeSet) {
 	}
 	for _, c := range sortedBoolKeys(ws.heapComps) {
 		bases := ws.compBases[c]
+		if strings.HasPrefix(c, "G$") {
+			// package-level (ghost or real) variable: its value lives in the cell at null; no other cell exists
+			if srt, ok := fv.compSort[c]; ok {
+				_, inner := arrParts(srt)
+				cur := fv.heapGet(e, c, srt)
+				n := fv.s.freshConst(c, srt)
+				fv.s.assume(eq(n, store(cur, tNull, fv.s.freshConst("hv", inner))))
+				fv.heapSet(e, c, n)
+				continue
+			} else if v, ok2 := staticSorts.Load(c); ok2 {
+				srt = v.(string)
+				fv.compSort[c] = srt
+				_, inner := arrParts(srt)
+				cur := fv.heapGet(e, c, srt)
+				n := fv.s.freshConst(c, srt)
+				fv.s.assume(eq(n, store(cur, tNull, fv.s.freshConst("hv", inner))))
+				fv.heapSet(e, c, n)
+				continue
+			}
+		}
 		if ws.compFresh[c] && !ws.compWide[c] {
 			// written only at freshly allocated objects (and possibly through stable local bases):
 			// every object allocated before the loop keeps its contents, except the bases
@@ -1071,7 +1091,7 @@ func (fv *FV) callWriteComps(x *ast.CallExpr) ([]string, bool) {
 			return nil, false
 		}
 	}
-	if fn == nil || isIface {
+	if fn == nil || (isIface && fv.eng.unitOf(fn) == nil) {
 		return nil, true
 	}
 	if fn.Pkg() != nil && fn.Pkg().Path() == "math/big" {
